@@ -457,8 +457,17 @@ def run_shutdown(case: dict) -> dict:
                     peer.send(rest)
                     ev.append((loop.time(), "upload-rest-sent", i))
                 elif ph["kind"] == "upload" and not pt.closing:
-                    peer.send(b"u" * 600 + (f"GET /late/{i} HTTP/1.1\r\nHost: h\r\n\r\n".encode() if ph.get("late") else b""))
-                    ev.append((loop.time(), "upload-rest-sent", i))
+                    def send_rest(peer=peer, pt=pt, ph=ph, i=i):
+                        if pt.closing:
+                            return
+                        peer.send(b"u" * 600 + (f"GET /late/{i} HTTP/1.1\r\nHost: h\r\n\r\n".encode() if ph.get("late") else b""))
+                        ev.append((loop.time(), "upload-rest-sent", i))
+
+                    if ph.get("rest_at"):
+                        # the rest of the body is on its way and arrives within the allowance, maybe in its last fraction
+                        loop.call_at(t0 + ph["rest_at"] * T, send_rest)
+                    else:
+                        send_rest()
                 elif ph.get("late") and not pt.closing:
                     rest = b"st: h\r\n\r\n" if ph["kind"] == "half" else f"GET /late/{i} HTTP/1.1\r\nHost: h\r\n\r\n".encode()
                     peer.send(rest)
@@ -513,7 +522,7 @@ def check_shutdown(rec: Rec, case: dict) -> None:
             # its body arrives in full right after the shutdown began: "may complete during the shutdown timeout"
             if cancelled or not finished:
                 raise Violation("upload-in-progress-cannot-complete", f"the handler of connection {i} was reading a request body when the shutdown began; the rest of the body "
-                                f"arrived at once, yet the handler was cancelled / never finished; {desc}")
+                                f"arrived within the shutdown timeout, yet the handler was cancelled / never finished; {desc}")
             if (b"uploaded-1000;" if kind == "upload" else b"uploaded-900000;") not in out["received"][i]:
                 raise Violation("response-lost-in-shutdown", f"upload handler of connection {i} finished but its response did not reach the peer: {out['received'][i][-120:]!r}; {desc}")
         if kind in ("fresh", "keepalive") or (kind in ("sleep", "stream") and not active_at_t0 and started):
@@ -577,8 +586,10 @@ def shutdown_cases(draw):
         kind = draw(st.sampled_from(["fresh", "keepalive", "half", "sleep", "sleep", "never", "stream", "bigwrite", "upload", "upload_big", "upload_stashed"]))
         ph = {"kind": kind, "late": draw(st.booleans())}
         if kind in ("sleep", "stream"):
-            ph["d"] = draw(st.sampled_from([0.3, 0.8, 1.5, 0.0]))
+            ph["d"] = draw(st.sampled_from([0.3, 0.8, 1.5, 0.0, 0.995, 1.005]))  # 0.995, 1.005: done in the last fraction of the allowance (the shutdown begins at 0, 0.1 or 0.5)
             ph["pre"] = 0.0
+        if kind == "upload":
+            ph["rest_at"] = draw(st.sampled_from([0.0, 0.0, 0.5, 0.995]))
         if kind in ("sleep", "never") and draw(st.integers(0, 3)) == 0:
             ph["gone"] = True
             ph["late"] = False
